@@ -182,7 +182,7 @@ macro_rules! tap {
 }
 
 rule!(eol_comment(i), no_ctx, {
-    recognize(pair(char('#'), is_not("\n\r")))(i)
+    recognize(pair(char('#'), opt(is_not("\n\r"))))(i)
 });
 rule!(inline_comment(i), no_ctx, {
     delimited(tag("/*"), take_until("*/"), tag("*/"))(i)
